@@ -167,7 +167,10 @@ def run(ctx):
     okd = True
     for a in enc_args:
         names = {x.id for x in ast.walk(a) if isinstance(x, ast.Name)} if a is not None else set()
-        unknown = {nm for nm in names if nm not in defs and nm not in params and nm not in ('sorted', 'list', 'tuple', 'k_v', 'dict')}
+        import builtins as _bi
+        # functions (of the module, imported, builtin) are not data: what they are applied to is judged, they are not a source themselves
+        unknown = {nm for nm in names if nm not in defs and nm not in params and nm not in ('k_v',) and not hasattr(_bi, nm) and
+                   nm not in kb.module.functions and nm not in kb.module.imports}
         lam = {x.arg for l in ast.walk(a) if isinstance(l, ast.Lambda) for x in l.args.args} if a is not None else set()
         if unknown - lam:
             okd = False
